@@ -232,12 +232,13 @@ def run_property(prop, tier, seed, keep_scratch=False, only=None):
         if not r["harnesses"] and not r.get("error"):
             errors.append("%s: no harness matched %s" % (gname, g["patterns"]))
 
-    # expected-harness floor: a group that silently lost harnesses (renamed / cfg'd out) is an error
-    for gname, (g, r) in results.items():
-        exp = count_harnesses_in_sources(g["patterns"])
-        if exp and len(r["harnesses"]) < exp and not r.get("error"):
-            errors.append("%s: %d harnesses ran but %d are defined under /verif/kani for %s"
-                          % (gname, len(r["harnesses"]), exp, g["patterns"]))
+    # expected-harness floor: a property that silently lost harnesses (renamed / cfg'd out) is an error.
+    # Counted per property: the patterns of one group may also match harnesses another group of the same property runs.
+    all_pats = sorted({p for g in groups for p in g["patterns"]})
+    exp = count_harnesses_in_sources(all_pats)
+    ran = sum(len(r["harnesses"]) for _, (g, r) in results.items())
+    if exp and ran < exp and not any(r.get("error") for _, (g, r) in results.items()) and not only:
+        errors.append("%d harnesses ran but %d are defined under /verif/kani for %s" % (ran, exp, all_pats))
 
     violations_out = []
     known_out = []
